@@ -31,7 +31,7 @@ func runC09(s *core.Sim, tier string) RunInfo {
 	tH := uint64(20)
 	trustedHead := w.Ch.At(tH)
 	// candidate answers
-	A := w.Ch.At(tH + 1 + uint64(s.Tape.Draw("a", 3)))  // verifies directly
+	A := w.Ch.At(tH + 1 + uint64(s.Tape.Draw("a", 3))) // verifies directly
 	B := w.Ch.At(A.Height() + 1 + uint64(s.Tape.Draw("b", 3)))
 	C := w.Ch.At(tH + 10 + uint64(s.Tape.Draw("c", 20))) // soft-fails against the trusted head when the trust range is short
 	kinds := []string{"A", "A", "B", "C", "invalid", "wrong-chain", "error", "hang", "hard", "forged"}
@@ -48,7 +48,15 @@ func runC09(s *core.Sim, tier string) RunInfo {
 		desc = append(desc, fmt.Sprintf("peer%d=%s", i, kind))
 		all = append(all, i)
 		i := i
+		var memo *Reply // a peer answers every request of a run alike (two callers may ask it)
 		w.AddScriptPeer(i, func(n int, req *p2p_pb.HeaderRequest) Reply {
+			mu.Lock()
+			if memo != nil {
+				r := *memo
+				mu.Unlock()
+				return r
+			}
+			mu.Unlock()
 			r := Reply{Kind: kind, Service: 50 * time.Millisecond}
 			var h *H
 			switch kind {
@@ -83,6 +91,7 @@ func runC09(s *core.Sim, tier string) RunInfo {
 			}
 			mu.Lock()
 			arrivals = append(arrivals, i)
+			memo = &r
 			mu.Unlock()
 			return r
 		})
@@ -126,15 +135,52 @@ func runC09(s *core.Sim, tier string) RunInfo {
 	var got *H
 	var gerr error
 	deadline := 2 * time.Second
-	t, fin := s.Do("head", deadline+2*time.Second, func() {
+	askHead := func(ctx context.Context) (*H, error) {
+		if withTrusted {
+			return w.Ex.Head(ctx, header.WithTrustedHead[*H](trustedHead))
+		}
+		return w.Ex.Head(ctx)
+	}
+	// a second caller on the same Exchange at the same time (another Head, judged alike, or a
+	// GetByHeight, which shares the trusted-peer list with it): only where both callers ask the
+	// same set of peers, so that one oracle fits both (with a trusted head the tracked peers are
+	// asked, up to four of them, and the first call changes who is tracked)
+	second := ""
+	if !withTrusted || (np <= 4 && !emptyTracker) {
+		second = core.Pick(s.Tape, "second-caller", []string{"", "", "head", "get"})
+	}
+	var got2 *H
+	var gerr2 error
+	var t2 *core.Task
+	if second != "" {
+		s.Probe("second-caller-" + second)
+		t2 = s.Go("second-"+second, func() {
+			ctx, cancel := context.WithTimeout(context.Background(), deadline)
+			defer cancel()
+			if second == "head" {
+				got2, gerr2 = askHead(ctx)
+			} else {
+				_, _ = w.Ex.GetByHeight(ctx, A.Height())
+			}
+		})
+	}
+	t := s.Go("head", func() {
 		ctx, cancel := context.WithTimeout(context.Background(), deadline)
 		defer cancel()
-		if withTrusted {
-			got, gerr = w.Ex.Head(ctx, header.WithTrustedHead[*H](trustedHead))
-		} else {
-			got, gerr = w.Ex.Head(ctx)
-		}
+		got, gerr = askHead(ctx)
 	})
+	fin, fin2 := true, true
+	waitFor := []*core.Task{t}
+	if t2 != nil {
+		waitFor = append(waitFor, t2)
+	}
+	for _, st := range s.Settle(deadline+2*time.Second, waitFor...) {
+		if st == t {
+			fin = false
+		} else {
+			fin2 = false
+		}
+	}
 	// which peers were asked
 	var asked []int
 	for _, p := range w.Peers {
@@ -152,8 +198,12 @@ func runC09(s *core.Sim, tier string) RunInfo {
 		s.Violate("panic", at, "Head panicked: %v\n%s", t.Panic, t.Stack)
 		return info
 	}
-	if !fin {
-		s.Violate("hang", at, "Head did not return within its deadline [%v]", desc)
+	if t2 != nil && t2.Panic != nil {
+		s.Violate("panic", at, "the second caller (%s) panicked: %v\n%s", second, t2.Panic, t2.Stack)
+		return info
+	}
+	if !fin || !fin2 {
+		s.Violate("hang", at, "Head did not return within its deadline [%v second=%q]", desc, second)
 		return info
 	}
 	// --- the statement, replayed over what the asked peers supplied
@@ -219,61 +269,67 @@ func runC09(s *core.Sim, tier string) RunInfo {
 		var ve *header.VerifyError
 		return errors.As(err, &ve) && ve.SoftFailure
 	}
-	switch {
-	case got != nil && (gerr == nil || isSoftErr(gerr)):
-		c := cands[string(got.Hash())]
-		if c == nil {
-			s.Violate("unsupplied-head-returned", at, "Head returned %v which no asked peer supplied as an acceptable header [%v trustRange=%d]", got, desc, simhdr.Cfg.TrustRange)
-			return info
-		}
-		if withTrusted && c.soft != (gerr != nil) {
-			s.Violate("trusted-head-verdict", map[string]string{"soft": fmt.Sprint(c.soft)}, "Head(WithTrustedHead(%d)) returned %v with err=%v; against the trusted head it is soft-failing=%v", tH, got, gerr, c.soft)
-			return info
-		}
-		if !withTrusted && gerr != nil {
-			s.Violate("unexpected-error", at, "Head returned %v with %v", got, gerr)
-			return info
-		}
-		if len(quorum) > 0 {
-			ok := false
-			for _, qc := range quorum {
-				if simhdr.Equal(qc.h, got) {
-					ok = true
-				}
-			}
-			// with several quorum candidates or hanging peers the first to reach quorum wins; any of them is acceptable
-			if !ok && hanging == 0 && len(cands) > 0 {
-				// every asked peer answered: if no quorum header was returned the result must at least be the highest
-				if got.Height() != highest {
-					s.Violate("quorum-ignored", at, "a header reported by >=%d of %d asked peers exists (%v) but Head returned %v [%v]", q, n, quorum[0].h, got, desc)
-				}
-			}
-		} else if hanging == 0 && got.Height() != highest {
-			s.Violate("not-the-highest", at, "no quorum among %d asked peers; highest reported is %d but Head returned %v [%v]", n, highest, got, desc)
-		}
-		s.Probe("head-returned")
-	case got == nil && gerr != nil:
+	judge := func(got *H, gerr error) {
 		switch {
-		case errors.Is(gerr, header.ErrNotFound):
-			if len(cands) > 0 && hanging == 0 {
-				s.Violate("supplied-head-dropped", at, "Head returned ErrNotFound although %d acceptable headers were supplied [%v]", len(cands), desc)
+		case got != nil && (gerr == nil || isSoftErr(gerr)):
+			c := cands[string(got.Hash())]
+			if c == nil {
+				s.Violate("unsupplied-head-returned", at, "Head returned %v which no asked peer supplied as an acceptable header [%v trustRange=%d]", got, desc, simhdr.Cfg.TrustRange)
+				return
 			}
-		case errors.Is(gerr, context.DeadlineExceeded):
-			if hanging == 0 {
-				s.Violate("deadline-without-hanging-peer", at, "Head ran into the caller's deadline although every asked peer answered [%v]", desc)
+			if withTrusted && c.soft != (gerr != nil) {
+				s.Violate("trusted-head-verdict", map[string]string{"soft": fmt.Sprint(c.soft)}, "Head(WithTrustedHead(%d)) returned %v with err=%v; against the trusted head it is soft-failing=%v", tH, got, gerr, c.soft)
+				return
+			}
+			if !withTrusted && gerr != nil {
+				s.Violate("unexpected-error", at, "Head returned %v with %v", got, gerr)
+				return
 			}
 			if len(quorum) > 0 {
-				// a quorum of answers existed even without the hanging peers
-				s.Violate("quorum-not-early", at, "a quorum (%d of %d) was available without the hanging peers but Head waited for the deadline [%v]", q, n, desc)
+				ok := false
+				for _, qc := range quorum {
+					if simhdr.Equal(qc.h, got) {
+						ok = true
+					}
+				}
+				// with several quorum candidates or hanging peers the first to reach quorum wins; any of them is acceptable
+				if !ok && hanging == 0 && len(cands) > 0 {
+					// every asked peer answered: if no quorum header was returned the result must at least be the highest
+					if got.Height() != highest {
+						s.Violate("quorum-ignored", at, "a header reported by >=%d of %d asked peers exists (%v) but Head returned %v [%v]", q, n, quorum[0].h, got, desc)
+					}
+				}
+			} else if hanging == 0 && got.Height() != highest {
+				s.Violate("not-the-highest", at, "no quorum among %d asked peers; highest reported is %d but Head returned %v [%v]", n, highest, got, desc)
 			}
+			s.Probe("head-returned")
+		case got == nil && gerr != nil:
+			switch {
+			case errors.Is(gerr, header.ErrNotFound):
+				if len(cands) > 0 && hanging == 0 {
+					s.Violate("supplied-head-dropped", at, "Head returned ErrNotFound although %d acceptable headers were supplied [%v]", len(cands), desc)
+				}
+			case errors.Is(gerr, context.DeadlineExceeded):
+				if hanging == 0 {
+					s.Violate("deadline-without-hanging-peer", at, "Head ran into the caller's deadline although every asked peer answered [%v]", desc)
+				}
+				if len(quorum) > 0 {
+					// a quorum of answers existed even without the hanging peers
+					s.Violate("quorum-not-early", at, "a quorum (%d of %d) was available without the hanging peers but Head waited for the deadline [%v]", q, n, desc)
+				}
+			default:
+				s.Violate("unexpected-error", at, "Head: %v [%v]", gerr, desc)
+			}
+			s.Probe("head-error")
+		case got == nil && gerr == nil:
+			s.Violate("zero-header-nil-error", at, "Head returned a zero header and nil error")
 		default:
-			s.Violate("unexpected-error", at, "Head: %v [%v]", gerr, desc)
+			s.Violate("header-with-hard-error", at, "Head returned %v together with the non-soft error %v", got, gerr)
 		}
-		s.Probe("head-error")
-	case got == nil && gerr == nil:
-		s.Violate("zero-header-nil-error", at, "Head returned a zero header and nil error")
-	default:
-		s.Violate("header-with-hard-error", at, "Head returned %v together with the non-soft error %v", got, gerr)
+	}
+	judge(got, gerr)
+	if second == "head" && len(s.Violations) == 0 {
+		judge(got2, gerr2)
 	}
 	return info
 }
